@@ -302,6 +302,7 @@ def rrs_layer(ctx, repo, hdap_ci, hdap_stub):
     ctx.extra["paths_rrs"] = n_r
     ctx.ob("handler/never-raises", q, not raised, f"{n_r} paths; " + ("; ".join(sorted(set(raised))[:3]) or "none raises"), rdr.loc)
     ctx.ob("rrs/registry", q, not reg_bad, "; ".join(sorted(set(reg_bad))[:3]) or f"{n_r} paths: registry follows the last registration / offline message", rdr.loc)
+    sn_invariant(ctx, repo, rci)
     ctx.ob("rrs/confirm-once", q, not conf_bad, "; ".join(sorted(set(conf_bad))[:3]) or "one success answer per registration request with a bounded S/N", rdr.loc)
 
 
@@ -361,3 +362,38 @@ def _check_ack(I, st, e):
     if e[2].get("addr", e[1][1] if len(e[1]) > 1 else None) != ("10.0.0.1", 50000):
         return "answer is not addressed to the sender"
     return None
+
+
+def sn_invariant(ctx, repo, pci):
+    """the own sequence number stays a 16-bit value: every assignment to self.sn in the handler class maps [0, 0xFFFF] into
+    [0, 0xFFFF] (interval evaluation), so the 2-octet S/N field of an answer can never overflow, whatever the history length"""
+    import ast as _ast
+    from sa.intervals import Iv, expr_interval
+    ctx.rule("sn/stays-16-bit", "every assignment to the handler's own sequence number keeps it within 0..0xFFFF, by interval evaluation from the invariant itself (inductive over any history)")
+    n = 0
+    for ci in [pci] + [c for c in repo.mro(pci)[1:]]:
+        for fi in ci.methods.values():
+            for node in _ast.walk(fi.node):
+                tgt = None
+                if isinstance(node, (_ast.Assign, _ast.AnnAssign)) and node.value is not None:
+                    t = node.targets[0] if isinstance(node, _ast.Assign) else node.target
+                    if isinstance(t, _ast.Attribute) and isinstance(t.value, _ast.Name) and t.value.id == "self" and t.attr == "sn":
+                        tgt, val = t, node.value
+                elif isinstance(node, _ast.AugAssign) and isinstance(node.target, _ast.Attribute) and isinstance(node.target.value, _ast.Name) \
+                        and node.target.value.id == "self" and node.target.attr == "sn":
+                    tgt = node.target
+                    val = _ast.BinOp(left=_ast.Attribute(value=_ast.Name(id="self", ctx=_ast.Load()), attr="sn", ctx=_ast.Load()), op=node.op, right=node.value)
+                    _ast.copy_location(val, node)
+                    _ast.fix_missing_locations(val)
+                if tgt is None:
+                    continue
+                n += 1
+                try:
+                    iv = expr_interval(fi, val, {"self.sn": Iv(0, 0xFFFF)}, fold=lambda e, fi=fi, ci=ci: repo.fold_expr(e, fi.module, ci))
+                    ok = iv.lo >= 0 and iv.hi <= 0xFFFF
+                    detail = f"self.sn in [0, 0xffff]  =>  {_ast.unparse(val)} in {iv}"
+                except AnalysisError as e:
+                    ok, detail = False, None
+                    raise
+                ctx.ob("sn/stays-16-bit", f"{fi.qualname} | self.sn = {_ast.unparse(val)[:40]}", ok, detail, f"{fi.module.relpath}:{node.lineno}")
+    ctx.require("sn/stays-16-bit", 2)
